@@ -71,12 +71,7 @@ func (p *Program) resolveNative(fn *ssa.Function) nativeFn {
 		if nf, ok := symNatives[nm]; ok {
 			return nf
 		}
-		if fn.Synthetic != "" || fn.Name() == "init" {
-			return nil
-		}
-		return func(m *Machine, fr *frame, args []Value) Value {
-			panic(engineErr{"unknown verifsym intrinsic " + fn.Name()})
-		}
+		return nil // helpers written in Go (cmpcheck.go etc.) are interpreted
 	case path == "github.com/cockroachdb/errors" && fn.Signature.Recv() == nil:
 		return crdbErrorsNative(fn)
 	case path == "github.com/cockroachdb/errors/oserror":
